@@ -404,3 +404,42 @@ def reach_units(idx, roots, cut=()):
             if isinstance(c.node, ast.Lambda):
                 stack.append(c)
     return order
+
+
+# ------------------------------------------------------------- role discovery (rename-robustness)
+def names_defined_by(unit, pred):
+    """local names one of whose plain definitions satisfies pred(value_ast)."""
+    out = []
+    for k, ds in local_defs(unit).items():
+        for d in ds:
+            if d[0] in ('expr',) and pred(d[1]):
+                out.append(k)
+                break
+    return out
+
+
+def one_name(unit, pred, what):
+    ns = names_defined_by(unit, pred)
+    if len(ns) != 1:
+        raise Undecided('%s: expected one local for %s, found %s' % (unit.short, what, ns))
+    return ns[0]
+
+
+def returned_names(unit):
+    return sorted(set(r.value.id for r in walk_unit(unit) if isinstance(r, ast.Return) and isinstance(r.value, ast.Name)))
+
+
+def starred_arg_name(call):
+    for a in call.args:
+        if isinstance(a, ast.Starred) and isinstance(a.value, ast.Name):
+            return a.value.id
+    return None
+
+
+def norm_src(node, mapping):
+    """source text with local names replaced by role names (for rename-insensitive comparison)."""
+    class R(ast.NodeTransformer):
+        def visit_Name(self, n):
+            return ast.copy_location(ast.Name(id=mapping.get(n.id, n.id), ctx=n.ctx), n)
+    import copy
+    return src(R().visit(copy.deepcopy(node)))
